@@ -36,6 +36,9 @@ def worker(job):
     if isinstance(layer, Rejected):
         problems.append(("rejected", "constructor rejected: %s" % layer.exc, None))
         return dict(cfg=cfg, problems=problems)
+    from .c08 import symbolise
+
+    symbolise(w, layer)  # every array leaf except the filter bank is an independent trainable symbol
     xb = {t: block("x", t, (c,), N, D) for t, c in in_sig}
     x = make_multi(it, [t for t, _ in in_sig], xb, D, flags)
     y = attempt(lambda: layer(x))
